@@ -96,6 +96,16 @@ package lite
 //@ func findRoute$1
 //@   props C30
 //@   at-call GetNextBackend as pick: assert [picks-from-what-is-left] arg0 == strategyManager && arg2 == route && streq(arg3, host) && ref(arg4) == ref(tryBackends) && len(arg4) == len(tryBackends) && len(tryBackends) != 0
+//@   at-call Parse#1 as pb: assert [entry-normalised-from-the-entry] streq(arg0, backend)
+//@   at-call String#1 as sb1: assert arg0 == res(pb, 0)
+//@   at-call HostPort#1 as hb: assert arg0 == res(pb, 0)
+//@   at-call String#2 as sb2: assert arg0 == res(pb, 0)
+//@   at-call JoinHostPort#1 as jb: assert called(sb2) && streq(arg0, res(sb2)) && streq(arg1, "25565")
+//@   at-call Parse#2 as ps: assert [pick-normalised-from-the-pick] streq(arg0, backendAddr)
+//@   at-call String#3 as ss1: assert arg0 == res(ps, 0)
+//@   at-call HostPort#2 as hs: assert arg0 == res(ps, 0)
+//@   at-call String#4 as ss2: assert [default-port-added-to-the-pick-itself] arg0 == res(ps, 0)
+//@   at-call JoinHostPort#2 as js: assert called(ss2) && streq(arg0, res(ss2)) && streq(arg1, "25565")
 //@   loop 1: invariant !removed && rangeindex >= -1 && rangeindex < len(tryBackends) && len(tryBackends) == old(len(tryBackends)) && ref(tryBackends) == old(ref(tryBackends))
 //@   loop 2: invariant !removed && rangeindex >= -1 && rangeindex < len(tryBackends) && len(tryBackends) == old(len(tryBackends)) && ref(tryBackends) == old(ref(tryBackends)) && (forall j int :: 0 <= j && j <= rangeindex && j < len(tryBackends) ==> !streq(tryBackends[j], backendAddr))
 //@   ensures [nothing-left-ends-the-attempt] old(len(tryBackends)) == 0 ==> !result.2
